@@ -66,7 +66,9 @@ fn oracle_paths(max: usize) -> bool {
         for arg in &args {
             r.case();
             let got = catch_unwind(AssertUnwindSafe(|| p.join(arg)));
-            if let Ok(g) = &got { tr_res(&format!("join {} {}", render(base), arg), g); if let Ok(q) = g { tr(q.as_str()); tr(q.parent().as_str()); tr(&q.filename()); tr(&format!("{:?} {}", q.extension(), q.is_root())); } }
+            if let Ok(g) = &got { tr_res(&format!("join {} {}", render(base), arg), g); if let Ok(q) = g { tr(q.as_str());
+                // the derived values are traced under catch_unwind: a panic here is found (and reported) by the checks below
+                let d = catch_unwind(AssertUnwindSafe(|| format!("{} {} {:?} {}", q.parent().as_str(), q.filename(), q.extension(), q.is_root()))); tr(&d.unwrap_or_else(|_| "panic".to_string())); } }
             let want = join_spec(base, arg);
             match (got, want) {
                 (Err(_), _) => r.fail(format!("join base={:?} arg={:?}", render(base), arg), "panicked".into()),
